@@ -128,24 +128,34 @@ theorem C12_no_dangling_reachable (sch : Schema) (ops : List Op) (h : AllOK sch 
       exact ih (step sch s op) (C12_step sch s op hI) (C12_clean_step sch s op hI hC hok.1) hok.2
   exact g ops _ (C12_init sch) (fun o ho => absurd ho (Nat.not_lt_zero _)) h
 
-/-- the UNGUARDED statement (values alive when passed) is false of the mirrored code: assigning a one-to-many collection
-    whose cascade deletes an item that was to stay puts the deleted item back (witness below; replayed on the real code) -/
+/-- the UNGUARDED statement is false of the mirrored code even when every object passed is alive: a collection assignment
+    whose cascade deletes the OWNER of the collection goes on and links the new items to the deleted owner
+    (witness below; replayed on the real code by the engine).  The other member of this family — the cascade deletes an
+    item that was to stay — was repaired in /repo (497b8cf) and is mirrored by `finalRow`. -/
 def C12_no_dangling_full : Prop := ∀ (sch : Schema) (ops : List Op), Live sch (run sch Store.empty ops)
 
-/-- `A.bs = Set(B, cascade_delete=True)` ↔ `B.a = Optional(A)`;  `B.kids = Set(B, cascade_delete=True)` ↔ `B.parent = Optional(B)` -/
+/-- `A.bs = Set(B, cascade_delete=True)` ↔ `B.a = Optional(A)`;  `B.x = Optional(A, cascade_delete=True)` ↔ `A.y = Optional(B)` -/
 def witSchema : Schema :=
   [ { a := ⟨0, true, false, true⟩, b := ⟨1, false, false, false⟩, sym := false },
-    { a := ⟨1, true, false, true⟩, b := ⟨1, false, false, false⟩, sym := false } ]
+    { a := ⟨1, false, false, true⟩, b := ⟨0, false, false, false⟩, sym := false } ]
 
-/-- `a = A(); b1 = B(a=a); b2 = B(a=a, parent=b1); a.bs = [b2]` -/
+/-- `a = A(); b1 = B(a=a, x=a); b3 = B(); a.bs = [b3]`: removing b1 deletes it, its cascade deletes `a`; then `b3.a = a` -/
 def witOps : List Op :=
-  [ .create 0 [], .create 1 [(⟨0, true⟩, .ref (some 0))], .create 1 [(⟨0, true⟩, .ref (some 0)), (⟨1, true⟩, .ref (some 1))],
+  [ .create 0 [], .create 1 [(⟨0, true⟩, .ref (some 0)), (⟨1, false⟩, .ref (some 0))], .create 1 [],
     .setColl 0 ⟨0, false⟩ [2] ]
 
 theorem C12_no_dangling_full_false : ¬ C12_no_dangling_full := by
   intro h
-  have := h witSchema witOps 0 ⟨0, false⟩ 2 (by decide) (by decide) (by decide) (by decide)
+  have := h witSchema witOps 2 ⟨0, true⟩ 0 (by decide) (by decide) (by decide) (by decide)
   revert this
+  decide
+
+/-- regression: the repaired member of the family (`a.bs = [b2]`, removing b1 cascades to its kid b2) no longer leaves the
+    deleted b2 in `a.bs` -/
+example : (run [ { a := ⟨0, true, false, true⟩, b := ⟨1, false, false, false⟩, sym := false },
+                 { a := ⟨1, true, false, true⟩, b := ⟨1, false, false, false⟩, sym := false } ] Store.empty
+    [ .create 0 [], .create 1 [(⟨0, true⟩, .ref (some 0))], .create 1 [(⟨0, true⟩, .ref (some 0)), (⟨1, true⟩, .ref (some 1))],
+      .setColl 0 ⟨0, false⟩ [2] ]).members 0 ⟨0, false⟩ = [] := by
   decide
 
 /-! ### the statements are not vacuous -/
